@@ -31,6 +31,8 @@ type Prog struct {
 	byKey     map[string]*ssa.Function
 	boxedPtr  []types.Type
 	curProp   string
+	dynCache  map[*ssa.Function]bool
+	dynSet    map[*ssa.Function]bool
 }
 
 func mathFloat64bits(f float64) uint64 { return math.Float64bits(f) }
@@ -65,7 +67,7 @@ func loadProg(repo string, contractsDir string) (*Prog, error) {
 	}
 	prog.Build()
 	p := &Prog{repo: repo, fset: prog.Fset, prog: prog, ppkgs: pkgs, loopCache: map[*ssa.Function]*LoopInfo{},
-		 globals: map[*ssa.Global]int{}, funcIDs: map[*ssa.Function]int{}, implCache: map[string][]types.Type{}, byKey: map[string]*ssa.Function{}}
+		 globals: map[*ssa.Global]int{}, funcIDs: map[*ssa.Function]int{}, implCache: map[string][]types.Type{}, byKey: map[string]*ssa.Function{}, dynCache: map[*ssa.Function]bool{}}
 	for _, sp := range spkgs {
 		if sp != nil {
 			p.pkgs = append(p.pkgs, sp)
